@@ -124,14 +124,17 @@ impl Manifest {
             return Ok(vec![]);
         };
 
-        let mut data = String::new();
+        // Read bytes, not a string: a crash in the middle of `append` can cut the file inside a
+        // multi-byte character of a table or column name, and that torn tail must be ignored
+        // like any other incomplete record instead of failing the open with invalid UTF-8.
+        let mut data = Vec::new();
         file.seek(SeekFrom::Start(0)).await?;
         let mut reader = BufReader::new(file);
 
         // TODO: don't read all to memory
-        reader.read_to_string(&mut data).await?;
+        reader.read_to_end(&mut data).await?;
 
-        let stream = Deserializer::from_str(&data).into_iter::<ManifestOperation>();
+        let stream = Deserializer::from_slice(&data).into_iter::<ManifestOperation>();
 
         let mut ops = vec![];
         let mut buffered_ops = vec![];
